@@ -330,7 +330,8 @@ def file_cases(draw):
     secs = {}
     for title, _ in SECTIONS:
         secs[title] = [mnem() for _ in range(draw(st.integers(0, 6)))]
-    return {"file": secs, "nrows": draw(st.integers(1, 3))}
+    return {"file": secs, "nrows": draw(st.integers(1, 3)), "version": draw(st.sampled_from([2.0, 2.0, 1.2])),
+            "second_cycle": draw(st.booleans())}
 
 
 def parse_written(text):
@@ -423,8 +424,10 @@ def file_oracle(case):
     if out.violations:
         return out
 
+    version = case.get("version", 2.0)
+    out.cls("file-v%s" % version)
     buf = io.StringIO()
-    r = attempt(las.write, buf, version=2.0)
+    r = attempt(las.write, buf, version=version)
     if is_raised(r):
         out.fail("write-raised|%s" % r.bucket, "write raised %s for %r" % (r, secs))
         return out
@@ -448,6 +451,34 @@ def file_oracle(case):
         for title, _ in SECTIONS:
             mapped = [CASEMAP[c](x) for x in originals[title]]
             check_section(out, "reread-%s|%s" % (c, title), las2.sections[title], mapped, c != "preserve")
+        if out.violations or not case.get("second_cycle"):
+            continue
+        # second cycle: the re-read file is written as the OTHER version and read again with the same option
+        other = 1.2 if version == 2.0 else 2.0
+        buf2 = io.StringIO()
+        r2 = attempt(las2.write, buf2, version=other)
+        if is_raised(r2):
+            out.fail("second-write-raised|%s|%s" % (c, r2.bucket), "write(version=%r) of the file re-read with %r raised %s" % (other, c, r2))
+            continue
+        text2 = buf2.getvalue()
+        written2 = parse_written(text2)
+        for title, letter in SECTIONS:
+            mapped = [CASEMAP[c](x) for x in originals[title]]
+            if title == "Version":
+                # the writer substitutes its standard (upper-case) VERS item
+                mapped = ["VERS" if x.upper() == "VERS" else x for x in mapped]
+            if written2.get(letter) != mapped:
+                out.fail("written-mnemonic-not-original|second-cycle|%s" % title,
+                         "mnemonic_case=%s: written ~%s mnemonics %r, originals %r\n%s" % (c, letter, written2.get(letter), mapped, text2))
+        las3 = attempt(lasio.read, text2, mnemonic_case=c)
+        if is_raised(las3):
+            out.fail("reread-raised|second-cycle|%s|%s" % (c, las3.bucket), "%s\n%s" % (las3, text2))
+            continue
+        for title, _ in SECTIONS:
+            mapped = [CASEMAP[c](CASEMAP[c](x)) for x in originals[title]]
+            if title == "Version":
+                mapped = [CASEMAP[c]("VERS") if x.upper() == "VERS" else x for x in mapped]
+            check_section(out, "reread2-%s|%s" % (c, title), las3.sections[title], mapped, c != "preserve")
     return out
 
 
